@@ -368,6 +368,36 @@ pub fn gen_c04(run: &mut Run, seed: u64, thorough: bool) {
             i.execute(&hc, &id, &ha, &other2, "re-approved-other-content-after-execution");
             i.g.q_msg(&m3);
             i.sweep(&holders);
+            // a PENDING approval is not replaced by a later approval of other content for the same id: the later content is never
+            // delivered, the first one exactly once
+            {
+                let id = i.fresh_id();
+                let first = transfer_payload(&env, b"ethereum", &tid, b"0xsrc", &dest, 4, None);
+                let second = transfer_payload(&env, b"ethereum", &tid, b"0xsrc", &dest, 40, None);
+                let m1 = i.approve(&hc, &id, &ha, &its, &first, "approve-pending-first-content");
+                let m2 = i.approve(&hc, &id, &ha, &its, &second, "approve-pending-second-content");
+                i.execute(&hc, &id, &ha, &second, "deliver-second-content-while-first-pending");
+                i.execute(&hc, &id, &ha, &first, "deliver-first-content");
+                i.execute(&hc, &id, &ha, &second, "deliver-second-content-after-first");
+                i.g.q_msg(&m1);
+                i.g.q_msg(&m2);
+                i.sweep(&holders);
+            }
+            // data for a recipient that is an ACCOUNT address (no code there to hand the data to): the delivery fails as a whole
+            {
+                let acct = Addr { contract: false, id: [9u8; 32] };
+                let zero = Addr { contract: false, id: [0u8; 32] };
+                for (a, nm) in [(&acct, "account"), (&zero, "zero-account")] {
+                    let p = transfer_payload(&env, b"ethereum", &tid, b"0xsrc", &addr_xdr(&env, a), 3, Some(b"hello".to_vec()));
+                    i.deliver(&p, &format!("data-to-{nm}-{which}"));
+                    // (an asset contract knows accounts only through trustlines, which the harness does not set up: balances of
+                    // account addresses are read for the service's own token only)
+                    if which == "native" {
+                        i.op(&format!("tok.balance {} {}", tok_n.tok(), a.tok()), "q");
+                    }
+                }
+                i.sweep(&holders);
+            }
             // source chain not the hub (consistently approved that way)
             let id = i.fresh_id();
             let m = i.approve(b"ethereum", &id, &ha, &its, &good, "approve");
@@ -728,6 +758,17 @@ pub fn gen_c05(run: &mut Run, seed: u64, thorough: bool) {
                 i.sweep(&holders);
             }
         }
+        // directed: data for an ACCOUNT-type recipient (nothing there can take the data): nothing is credited (service-deployed tokens
+        // only: an asset contract knows accounts through trustlines, which the harness does not set up)
+        for (tid, kind) in [(ids[0].0, ids[0].1), (ids[1].0, ids[1].1)] {
+            for a in [Addr { contract: false, id: [9u8; 32] }, Addr { contract: false, id: [0u8; 32] }] {
+                let p = transfer_payload(&env, b"ethereum", &tid, b"0xRemoteSender", &addr_xdr(&env, &a), 3, Some(b"hi".to_vec()));
+                i.deliver(&p, &format!("inbound-{kind}-directed-data-to-account"));
+                let p = transfer_payload(&env, b"ethereum", &tid, b"0xRemoteSender", &addr_xdr(&env, &a), 3, None);
+                i.deliver(&p, &format!("inbound-{kind}-directed-no-data-to-account"));
+            }
+            i.sweep(&holders);
+        }
         // directed: the service itself as recipient of an inbound transfer, for every token (native, canonical, native registered
         // as canonical): what it holds afterwards is what the equations say, and can be released again
         for (tid, kind) in ids.clone() {
@@ -1040,6 +1081,15 @@ pub fn gen_c18(run: &mut Run, seed: u64, thorough: bool) {
             i.register(&a, &format!("register-custom-{label}"));
             customs.push((a, label));
         }
+        // third-party tokens whose decimals cannot be READ at all (the getter traps / answers with something that is no u32),
+        // registered while still healthy: a remote deployment for them is refused, nothing is announced, no gas is taken
+        for (k, (mode, label)) in [(1u32, "decimals-trap"), (2, "decimals-not-u32")].iter().enumerate() {
+            let a = Addr::c(240 + k as u8);
+            i.op(&format!("ctok.new {} {} {} 6", a.tok(), hx(b"Broken"), hx(b"BRK")), "env-custom-token");
+            i.register(&a, &format!("register-custom-{label}"));
+            i.op(&format!("ctok.break {} {mode}", a.tok()), "env-custom-token-breaks");
+            customs.push((a, label));
+        }
         let holders = users.clone();
         i.sweep(&holders);
         let dests: Vec<(Vec<u8>, &str)> = vec![
@@ -1088,7 +1138,9 @@ pub fn gen_c18(run: &mut Run, seed: u64, thorough: bool) {
                         continue;
                     }
                     let spender = users[1].clone();
-                    for (auth, acl) in [(spender.tok(), "spender"), ("-".to_string(), "nobody"), (stranger.tok(), "stranger")] {
+                    // (blanket authorisation too: the exact tree is built from the metadata the harness reads itself — for a token
+                    // whose metadata cannot be read only the blanket mode can stand for a willing payer)
+                    for (auth, acl) in [(spender.tok(), "spender"), ("-".to_string(), "nobody"), (stranger.tok(), "stranger"), ("*".to_string(), "everyone")] {
                         if acl != "spender" && *gcl != "affordable" {
                             continue;
                         }
